@@ -27,7 +27,7 @@ from typing import Any, Callable, Iterable
 
 from ..engine.cfg import CFG, own_parts
 from ..engine.normalize import (
-    ANCHOR_NAMES, _bind, _helper_target, _names_stored, _replace_node, _strip_doc, _to_expr,
+    ANCHOR_NAMES, _bind, _helper_target, _names_stored, _replace_node, _strip_doc,
     fold_diamonds, inline_helpers,
 )
 from ..engine.report import AnalysisError
@@ -264,6 +264,133 @@ def _guards_to_else(stmts: list[ast.stmt], depth: int = 0) -> list[ast.stmt] | N
     return stmts
 
 
+_PURE_FUNCS = {"len", "max", "min", "abs", "sum", "float", "int", "bool", "str", "repr", "isinstance",
+               "round", "timedelta", "tuple", "frozenset"}
+
+
+def _effect_free(e: ast.AST) -> bool:
+    """Evaluating `e` again gives the same value and does nothing else (f-strings, displays of such
+    values, attribute reads, the usual pure builtins): it may be substituted into several uses."""
+    for x in ast.walk(e):
+        if isinstance(x, (ast.Await, ast.Yield, ast.YieldFrom, ast.NamedExpr, ast.Lambda,
+                          ast.ListComp, ast.SetComp, ast.DictComp, ast.GeneratorExp)):
+            return False
+        if isinstance(x, ast.Call) and not (u(x.func) in _PURE_FUNCS or (
+                isinstance(x.func, ast.Attribute) and x.func.attr in ("total_seconds", "get_name"))):
+            return False
+    return True
+
+
+def stmts_to_expr(stmts: list[ast.stmt], depth: int = 0) -> ast.AST | None:
+    """Statements made of local bindings, logging, if/else and returns as ONE (conditional)
+    expression; None for any other shape.  Like the engine's `_to_expr`, but effect-free values
+    (f-strings, tuples, ...) may be substituted into several uses and logging calls are skipped."""
+    if not stmts or depth > 12:
+        return None
+    st, rest = stmts[0], stmts[1:]
+    if isinstance(st, ast.Return):
+        return st.value if st.value is not None else ast.Constant(None)
+    if isinstance(st, ast.Pass) or (isinstance(st, ast.Expr) and (
+            isinstance(st.value, ast.Constant)
+            or (isinstance(st.value, ast.Call) and is_logging_call(st.value)))):
+        return stmts_to_expr(rest, depth)
+    if isinstance(st, (ast.Assign, ast.AnnAssign)):
+        tgt = st.targets[0] if isinstance(st, ast.Assign) and len(st.targets) == 1 else getattr(st, "target", None)
+        if not isinstance(tgt, ast.Name) or st.value is None:
+            return None
+        uses = sum(1 for b in rest for n in ast.walk(b)
+                   if isinstance(n, ast.Name) and n.id == tgt.id and isinstance(n.ctx, ast.Load))
+        rebound = any(isinstance(n, ast.Name) and n.id == tgt.id and isinstance(n.ctx, ast.Store)
+                      for b in rest for n in ast.walk(b))
+        if rebound or any(isinstance(x, (ast.Await, ast.Yield, ast.YieldFrom)) for x in ast.walk(st.value)) \
+                or (uses > 1 and not _effect_free(st.value)):
+            return None
+        sub = _Subst({tgt.id: st.value})
+        return stmts_to_expr([sub.visit(copy.deepcopy(b)) for b in rest], depth + 1)
+    if isinstance(st, ast.If) and _effect_free(st.test):
+        a = stmts_to_expr(list(st.body) + ([] if _terminates(st.body) else rest), depth + 1)
+        tail = list(st.orelse) + ([] if _terminates(st.orelse) else rest)
+        b = stmts_to_expr(tail, depth + 1)
+        if a is None or b is None:
+            return None
+        return ast.copy_location(ast.IfExp(test=st.test, body=a, orelse=b), st)
+    return None
+
+
+def _returns_to_breaks(stmts: list[ast.stmt]) -> bool:
+    """Turn every value-less `return` into `break` (for a body that will be wrapped into a
+    one-pass `while True: ...; break`).  False when a return carries a value or sits in a loop."""
+    ok = True
+
+    def visit(body: list[ast.stmt]) -> None:
+        nonlocal ok
+        for k, b in enumerate(body):
+            if isinstance(b, ast.Return):
+                if b.value is not None and not (isinstance(b.value, ast.Constant) and b.value.value is None):
+                    ok = False
+                body[k] = ast.copy_location(ast.Break(), b)
+                continue
+            if isinstance(b, (ast.For, ast.AsyncFor, ast.While)):
+                if _has_return([b]):
+                    ok = False
+                continue
+            if isinstance(b, (ast.FunctionDef, ast.AsyncFunctionDef, ast.ClassDef)):
+                continue
+            for field in ("body", "orelse", "finalbody"):
+                sub = getattr(b, field, None)
+                if isinstance(sub, list) and sub and isinstance(sub[0], ast.stmt):
+                    visit(sub)
+            for h in getattr(b, "handlers", []) or []:
+                visit(h.body)
+            for c in getattr(b, "cases", []) or []:
+                visit(c.body)
+
+    visit(stmts)
+    return ok
+
+
+def _returns_to_continuation(stmts: list[ast.stmt], rest: list[ast.stmt], budget: int = 6) -> bool:
+    """Replace every value-less `return` (also inside loops / try) by a copy of `rest` followed by
+    `return`.  False when a return carries a value or there are too many of them."""
+    count = 0
+    ok = True
+
+    def visit(body: list[ast.stmt]) -> None:
+        nonlocal count, ok
+        k = 0
+        while k < len(body):
+            b = body[k]
+            if isinstance(b, ast.Return):
+                if b.value is not None and not (isinstance(b.value, ast.Constant) and b.value.value is None):
+                    ok = False
+                count += 1
+                cont = [_mark(copy.deepcopy(x)) for x in rest]
+                body[k:k + 1] = cont + [b]
+                k += len(cont) + 1
+                continue
+            if not isinstance(b, (ast.FunctionDef, ast.AsyncFunctionDef, ast.ClassDef)):
+                for field in ("body", "orelse", "finalbody"):
+                    sub = getattr(b, field, None)
+                    if isinstance(sub, list) and sub and isinstance(sub[0], ast.stmt):
+                        visit(sub)
+                for h in getattr(b, "handlers", []) or []:
+                    visit(h.body)
+                for c in getattr(b, "cases", []) or []:
+                    visit(c.body)
+            k += 1
+
+    visit(stmts)
+    return ok and 0 < count <= budget
+
+
+def _mark(node: ast.AST) -> ast.AST:
+    """Tag every name of a copied continuation so that the helper's local renaming skips it."""
+    for n in ast.walk(node):
+        if isinstance(n, ast.Name):
+            n._caller = True  # type: ignore[attr-defined]
+    return node
+
+
 def splice_guarded(prog: Program, fn: FuncInfo, root: ast.AST) -> ast.AST | None:
     """Splice private helpers (methods, module functions, closures) that are called as a statement
     (`h(...)` / `await h(...)`) and only return early without a value from if/else guard clauses.
@@ -308,6 +435,21 @@ def splice_guarded(prog: Program, fn: FuncInfo, root: ast.AST) -> ast.AST | None
                 continue  # return-free helpers are the engine's business
             binds = _bind(h, call)
             new_body = _guards_to_else(copy.deepcopy(body))
+            if new_body is None:
+                # returns inside try / with: one-pass loop, `return` becomes `break`
+                inner = copy.deepcopy(body)
+                if _returns_to_breaks(inner):
+                    loop = ast.While(test=ast.Constant(True), orelse=[],
+                                     body=inner + [ast.copy_location(ast.Break(), st)])
+                    loop._synthetic = True  # type: ignore[attr-defined]
+                    new_body = [ast.copy_location(loop, st)]
+            if new_body is None and suite is getattr(root, "body", None):
+                # returns inside loops, called at the top level of the function: every `return`
+                # continues with (a copy of) the rest of the caller and then leaves it
+                inner = copy.deepcopy(body)
+                rest = suite[i:]
+                if len(rest) <= 12 and _returns_to_continuation(inner, rest):
+                    new_body = inner
             if binds is None or new_body is None:
                 continue
             locals_h: set[str] = set()
@@ -325,9 +467,10 @@ def splice_guarded(prog: Program, fn: FuncInfo, root: ast.AST) -> ast.AST | None
                         targets=[ast.Name(id=ren[pname], ctx=ast.Store())], value=arg), st))
             for b in new_body:
                 for nn in ast.walk(b):
-                    if isinstance(nn, ast.Name) and nn.id in ren and nn.id not in mapping:
+                    if isinstance(nn, ast.Name) and nn.id in ren and nn.id not in mapping \
+                            and not getattr(nn, "_caller", False):
                         nn.id = ren[nn.id]
-            sub = _Subst(mapping)
+            sub = _SubstHelper(mapping)
             new_body = [sub.visit(b) for b in new_body]
             suite[i - 1:i] = pre + new_body
             i = i - 1 + len(pre) + len(new_body)
@@ -351,26 +494,7 @@ def splice_guarded(prog: Program, fn: FuncInfo, root: ast.AST) -> ast.AST | None
                                 isinstance(d, ast.Name) and d.id in ("staticmethod", "override")
                                 for d in h.decorator_list):
                         continue
-                    body = [b for b in copy.deepcopy(_strip_doc(h.body))
-                            if not (isinstance(b, ast.Expr) and isinstance(b.value, ast.Call)
-                                    and is_logging_call(b.value))]
-
-                    def strip_logs(stmts: list[ast.stmt]) -> list[ast.stmt]:
-                        out = []
-                        for b in stmts:
-                            if isinstance(b, ast.Expr) and isinstance(b.value, ast.Call) \
-                                    and is_logging_call(b.value):
-                                continue
-                            if isinstance(b, ast.If):
-                                b.body = strip_logs(b.body) or [ast.copy_location(ast.Pass(), b)]
-                                b.orelse = strip_logs(b.orelse)
-                            out.append(b)
-                        return out
-
-                    body = strip_logs(body)
-                    if len(body) == len(_strip_doc(h.body)) and not any(
-                            isinstance(x, ast.Call) and is_logging_call(x) for b in h.body for x in ast.walk(b)):
-                        continue  # no logging inside: the engine already had its chance
+                    body = copy.deepcopy(_strip_doc(h.body))
                     binds = _bind(h, call)
                     if binds is None or not body or len(body) > 25:
                         continue
@@ -384,7 +508,7 @@ def splice_guarded(prog: Program, fn: FuncInfo, root: ast.AST) -> ast.AST | None
                                 nn.id = ren[nn.id]
                     sub = _Subst({k: v for k, v in binds.items() if k not in locals_h})
                     body = [sub.visit(b) for b in body]
-                    ce = _to_expr(body)
+                    ce = stmts_to_expr(body)
                     if ce is None:
                         continue
                     _replace_node(st, call, ce, awaited=False)
@@ -395,6 +519,18 @@ def splice_guarded(prog: Program, fn: FuncInfo, root: ast.AST) -> ast.AST | None
     ast.fix_missing_locations(root)
     root._spliced = spliced_names  # type: ignore[attr-defined]
     return root
+
+
+class _SubstHelper(ast.NodeTransformer):
+    """Parameter substitution that leaves the names of a copied caller continuation alone."""
+
+    def __init__(self, mapping: dict[str, ast.AST]) -> None:
+        self.mapping = mapping
+
+    def visit_Name(self, node: ast.Name) -> ast.AST:  # noqa: N802
+        if isinstance(node.ctx, ast.Load) and node.id in self.mapping and not getattr(node, "_caller", False):
+            return ast.copy_location(copy.deepcopy(self.mapping[node.id]), node)
+        return node
 
 
 class _Subst(ast.NodeTransformer):
